@@ -223,6 +223,7 @@ Proof. intros fuel b Hf. unfold bpush, bpush_spec. rewrite push_loop_spec by exa
 Section BcmdInd.
 Variable P : bcmd -> Prop.
 Hypothesis HBase : forall c, P (BBase c).
+Hypothesis HSup : forall flags items, P (BSetSup flags items).
 Hypothesis HPing : forall t, P (BPing t).
 Hypothesis HNoop : P BNoop.
 Hypothesis HBounce : forall code what, P (BBounce code what).
@@ -234,6 +235,7 @@ Hypothesis HBatch : forall l, Forall P l -> P (BBatch l).
 Fixpoint bcmd_ind' (c : bcmd) : P c :=
   match c with
   | BBase c0 => HBase c0
+  | BSetSup flags items => HSup flags items
   | BPing t => HPing t
   | BNoop => HNoop
   | BBounce code what => HBounce code what
@@ -258,8 +260,9 @@ Lemma handler_fuel : forall (fx : fixes) (c : bcmd) (fuel nest : nat) (b : bserv
   2 <= fuel -> hpeak fx nest b s c < fuel ->
   bhandle fx true fuel nest b s c = Some (bhandle_spec fx nest b s c).
 Proof.
-  intros fx c fuel. induction c as [c0|t| |code what|keys|ids|id keys|l IHl] using bcmd_ind';
+  intros fx c fuel. induction c as [c0|flags items|t| |code what|keys|ids|id keys|l IHl] using bcmd_ind';
     intros nest b s Hf2 Hpk.
+  - cbn [bhandle bhandle_spec]. destruct (get_session (b_sv b) s); reflexivity.
   - cbn [bhandle bhandle_spec]. destruct (get_session (b_sv b) s); reflexivity.
   - cbn [bhandle bhandle_spec]. destruct (get_session (b_sv b) s); reflexivity.
   - cbn [bhandle bhandle_spec]. destruct (get_session (b_sv b) s); reflexivity.
